@@ -755,9 +755,10 @@ class Gen:
                 elif form == "ratio":
                     ins.append(self.const_array(np.asarray(0.5, dtype=np.float32)))
                 elif form == "train_false":
-                    ins += [self.const_array(np.asarray(0.5, dtype=np.float32)), self.const_array(np.asarray(False))]
+                    # (the training flag is never an overridable initializer: overriding it with True makes the operator random)
+                    ins += [self.const_array(np.asarray(0.5, dtype=np.float32)), self.const_array(np.asarray(False), how=self.pick(["node", "init"]))]
                 elif form == "ratio_absent_train_false":
-                    ins += [None, self.const_array(np.asarray(False))]
+                    ins += [None, self.const_array(np.asarray(False), how=self.pick(["node", "init"]))]
                 self.features.add("dropout:" + form)
                 return self.emit("Dropout", ins, n_out=nout)
             return self.emit("Dropout", [v], n_out=nout, ratio=self.pick([0.0, 0.5]))
